@@ -35,7 +35,7 @@ def prefilter(case, d):
   cols, rows = refsem.Evaluator(rules, tables).rows(case.ordered_pred)
   if not case.info['order']:
     return case.info['K'] == 0 or case.info['K'] >= len(rows)     # no order: only 'none' or 'all' is determined
-  idx = [cols.index(o.split()[0]) for o in case.info['order']]
+  idx = [cols.index(o.split()[0]) for o in case.info['order'] if o.strip().upper() != 'DESC']
   keys = [tuple(r[i] for i in idx) for r in rows]
   return len(set(keys)) == len(keys)
 
